@@ -171,6 +171,14 @@ static inline int spec_ato_digit_step(int bits, int kf)
     return r;
 }
 
+/* known finding C11_strtoumax_ulong_cast (unit strtoumax_ilp32): region = texts whose value exceeds 2^32 - 1 */
+static inline void spec_strto_kf_above_u32(int kf)
+{
+    int in_region = g_sat || g_val > (spec_wide)0xFFFFFFFFu;
+    if (kf == 1)
+        __CPROVER_assume(!in_region);
+}
+
 /* the machine stands on the first character that is not part of the subject sequence */
 static inline int spec_strto_stopped(void)
 {
